@@ -11,7 +11,8 @@ from ..e2e import directed
 FAMILY = r"^move\.(stages|displacement|shape)|^helper\.|^order\."
 DRIVERS = {"e2e-shear": ("harness.e2e", "run_e2e", "LadimTrace", FAMILY),
            "analytic-helpers": ("harness.checks.c01", "helper_trace", "HelperTrace", FAMILY),
-           "convergence-order": ("harness.checks.c01", "order_trace", "HelperTrace", FAMILY)}
+           "convergence-order": ("harness.checks.c01", "order_trace", "HelperTrace", FAMILY),
+           "convergence-order-roms": ("harness.checks.c01", "order_roms_trace", "HelperTrace", FAMILY)}
 
 
 def helper_trace(sc):
@@ -125,6 +126,77 @@ def order_trace(sc):
     return ev
 
 
+def order_roms_trace(sc):
+    """end-point error of the real Tracker driven by the real ROMS Forcing + Grid on a generated file whose field
+    u = (a + b t)(1 + c x), v = (p + q t)(1 + e y) is reproduced exactly by the bilinear / linear-in-time interpolation and has a
+    closed-form flow map; forward and reversed; dt halved three times (frames stay on the model time grid)"""
+    import math
+    import os
+    import shutil
+
+    import numpy as np
+    from ladim.ROMS import Forcing, Grid
+    from ladim.state import State
+    from ladim.timekeeper import TimeKeeper
+    from ladim.tracker import Tracker
+    from ..enc import iso
+    from ..world import make_roms
+    ev = [dict(ev="setup")]
+    work = tlc.scratch("lv_ord_")
+    try:
+        imax, jmax, N = 40, 24, 2
+        T = 3840                                    # frames at 0, T/2, T
+        a, b, c = sc["a"], sc["b"], sc["c"]
+        p, q, e = sc["p"], sc["q"], sc["e"]
+        dx = 400.0
+        times = [0, T // 2, T]
+        U = np.zeros((3, N, jmax, imax - 1)); V = np.zeros((3, N, jmax - 1, imax))
+        xu = np.arange(imax - 1) + 0.5
+        yv = np.arange(jmax - 1) + 0.5
+        for n, t in enumerate(times):
+            U[n] = ((a + b * t) * (1 + c * xu))[None, None, :]
+            V[n] = ((p + q * t) * (1 + e * yv))[None, :, None]
+        fn = os.path.join(work, "f_00.nc")
+        make_roms(fn, imax=imax, jmax=jmax, N=N, times=times, U=U, V=V, dx=dx)
+        X0, Y0 = np.array([12.3, 20.7]), np.array([8.4, 13.1])
+
+        def exact(x0, y0, t0, t1):
+            A = (a * (t1 - t0) + b * (t1 * t1 - t0 * t0) / 2.0) / dx
+            B = (p * (t1 - t0) + q * (t1 * t1 - t0 * t0) / 2.0) / dx
+            return ((1 + c * x0) * np.exp(c * A) - 1) / c, ((1 + e * y0) * np.exp(e * B) - 1) / e
+
+        for rev in (False, True):
+            for adv in ("EF", "RK2", "RK4"):
+                errs = []
+                for k in range(4):
+                    n = sc.get("n0", 2) * 2 ** k
+                    dt = T // n
+                    start, stop = (T, 0) if rev else (0, T)
+                    timer = TimeKeeper(start=iso(start), stop=iso(stop), dt=dt, time_reversal=rev)
+                    state = State()
+                    grid = Grid(fn)
+                    force = Forcing(dict(time=timer, grid=grid, state=state), fn)
+                    tr = Tracker(advection=adv, modules=dict(time=timer, state=state, grid=grid, forcing=force))
+                    state.append(X=X0.copy(), Y=Y0.copy(), Z=5.0)
+                    for _ in range(timer.Nsteps):
+                        timer.update(); force.update(); tr.update()
+                    force.close()
+                    # reversed: the particle is carried back along the flow, i.e. the flow map from T to 0
+                    xe, ye = exact(X0, Y0, T, 0) if rev else exact(X0, Y0, 0, T)
+                    errs.append(float(np.max(np.hypot(state.X - xe, state.Y - ye))))
+                # the forcing fields are float32: errors near 1e-7 cell are storage noise, not the scheme's error -> only refinements
+                # whose finer error is still above 2e-6 are measurements (event kind "order32": wider lower band in the spec)
+                slopes = [int(round(1000 * math.log2(errs[i] / errs[i + 1]))) for i in range(3) if errs[i + 1] > 2e-6]
+                ev.append(dict(ev="order32", adv=adv, slopes=slopes, bad=bool(len(slopes) < 1), rev=rev, errs=[repr(x) for x in errs]))
+    except Exception as ex:
+        import traceback
+        tb_ = traceback.extract_tb(ex.__traceback__)[-1]
+        ev.append(dict(ev="crash", what=f"{type(ex).__name__}: {str(ex)[:100]} @{os.path.basename(tb_.filename)}:{tb_.lineno}"))
+    finally:
+        shutil.rmtree(work, ignore_errors=True)
+    return ev
+
+
 def scenarios(tier, seed):
     rng = random.Random(seed)
     return [directed(rng, "shear") for _ in range(1200 if tier == "thorough" else 300)]
@@ -142,6 +214,9 @@ def run(tier, seed):
     os_ = [dict(dx=dxy[0], dy=dxy[1], w0=w0, T=600.0, Ttot=1600.0, n0=32, cls={}) for dxy in ((100.0, 100.0), (80.0, 120.0)) for w0 in (0.002, 0.003)]
     ot = pmap("harness.checks.c01", "order_trace", os_)
     rep.add_tv("convergence-order", "HelperTrace", os_, ot, tlc.validate_traces("HelperTrace", ot), family=FAMILY)
+    rs_ = [dict(a=0.1, b=2.0e-4, c=0.06, p=-0.08, q=-1.5e-4, e=0.07, cls={}), dict(a=-0.12, b=-1.8e-4, c=0.05, p=0.1, q=1.6e-4, e=0.06, cls={})]
+    rt = pmap("harness.checks.c01", "order_roms_trace", rs_)
+    rep.add_tv("convergence-order-roms", "HelperTrace", rs_, rt, tlc.validate_traces("HelperTrace", rt), family=FAMILY)
     ht = pmap("harness.checks.c01", "helper_trace", hs)
     rep.add_tv("analytic-helpers", "HelperTrace", hs, ht, tlc.validate_traces("HelperTrace", ht), family=FAMILY)
     rep.nontrivial = len({repr((s["fm"], s["rows"], s["adv"], s["dx"], s["dy"])) for s in scs if s["adv"] != "EF"})
